@@ -12,8 +12,14 @@ oracle:         source package vs package saved after load, both read with zipfi
                 of reference attributes, closure inside its own part) and every font declaration kept; every other
                 manifest-listed file under the same path, media type and bytes (document signatures excepted);
                 sub-documents under the same folder with the same sections.
+                Nothing but the source's files and the parts a writer has to produce may be in the saved package,
+                no path stored or listed more often than in the source (foreign_members).
+                Props/C05Extras.lean: isKept_below_object / object_member_carried / object_preview_carried - every listed
+                member below an object folder except pictures and parsed parts is carried (model of the dispatch).
 inputs:         every .od? package in the repository + structure-preserving mutants written by the harness' own
-                serialiser (loadcommon.serialise) + synthetic packages
+                serialiser (loadcommon.serialise) + synthetic packages; every kind of listed member below object
+                folders (loadmut.m_object_listed_members); HISTORIES: 2-4 packages loaded in one process, the loaded
+                documents saved in turn, each 1-3 times, the oracle on every saved package (run_history)
 """
 import io, os, re, glob, json, contextlib, warnings, zipfile, base64
 import xml.parsers.expat
@@ -263,7 +269,32 @@ def compare_packages(src, out):
                 rep.add(osig or 'listed-file-lost', 'file %r is listed but not stored in the saved package' % p)
             elif out.data[p] != src.data[p]:
                 rep.add(osig or 'listed-file-bytes-changed', 'file %r: %d bytes saved as %d different bytes' % (p, len(src.data[p]), len(out.data[p])))
+    foreign_members(rep, src, out, subdocs)
     return rep
+
+
+def foreign_members(rep, src, out, subdocs):
+    """the saved package is the SOURCE package rewritten: besides what the source lists/stores it may hold only what a
+    writer has to produce for this document (mimetype, manifest, the four parts of the top document, content / styles /
+    settings of the source's own object folders, folder entries above such files).  A file that comes from somewhere
+    else - another document of the process, an earlier save - is not "kept", and a path stored or listed more often than
+    in the source makes "the file under this path" ambiguous."""
+    own = set([u'mimetype', u'META-INF/manifest.xml']) | set(L.PARTS)
+    for f in subdocs:
+        own |= set([f + u'content.xml', f + u'styles.xml', f + u'settings.xml'])
+    legit = own | set(src.names) | set(p for p, _ in src.manifest if p)
+    def is_folder_above(p):
+        return p.endswith(u'/') and any(x.startswith(p) for x in legit)
+    for n in sorted(set(out.names)):
+        if n not in legit and not is_folder_above(n):
+            rep.add('saved-package-foreign-member', 'member %r of the saved package is neither in the source nor a part of this document' % n)
+        if out.names.count(n) > max(1, src.names.count(n)):
+            rep.add('saved-package-duplicate-member', 'member %r is stored %d times in the saved package' % (n, out.names.count(n)))
+    for p in sorted(set(p for p, _ in out.manifest if p)):
+        if p not in legit and not is_folder_above(p):
+            rep.add('saved-package-foreign-member', 'manifest entry %r of the saved package is neither in the source nor a part of this document' % p)
+        if len(out.mdict[p]) > max(1, len(src.mdict.get(p, []))):
+            rep.add('saved-manifest-duplicate-entry', 'path %r is listed %d times in the saved manifest' % (p, len(out.mdict[p])))
 
 
 # ------------------------------------------------------------------------------------------- inputs
@@ -338,6 +369,76 @@ def run_package(raw):
     return rep, saved, doc, printed
 
 
+def run_history(recipe):
+    """several documents alive in ONE process: recipe {'base': 'history', 'steps': [single recipes], 'schedule': [step
+    numbers]}.  Every step's package is loaded (in order, all loaded documents stay alive), then the documents are saved
+    in the order of the schedule - a document may be saved several times, between the saves of other documents.  The
+    property holds for every load+save, whatever else the process loaded or saved before: the full oracle is evaluated
+    on every saved package against ITS source.  -> (report, number of saves)"""
+    from odf.opendocument import load
+    rep = Report()
+    srcs = []; docs = []
+    for k, st in enumerate(recipe['steps']):
+        raw = build_case(st)
+        src = None if raw is None else L.read_pkg(raw)
+        if src is None or has_doctype(src):
+            srcs.append(None); docs.append(None); continue
+        out = io.StringIO()
+        try:
+            with contextlib.redirect_stdout(out), warnings.catch_warnings():
+                warnings.simplefilter('ignore')
+                d = load(io.BytesIO(raw))
+        except Exception as e:      # noqa
+            rj = rejected_values(src)
+            rep.add('load-raises-on-schema-valid-value' if rj and isinstance(e, ValueError) else 'load-raises', 'step %d: %s: %s' % (k, type(e).__name__, e))
+            srcs.append(None); docs.append(None); continue
+        srcs.append(src); docs.append(d)
+    nsave = 0
+    count = {}
+    for k in recipe['schedule']:
+        if k >= len(docs) or docs[k] is None:
+            continue
+        count[k] = count.get(k, 0) + 1
+        b = io.BytesIO()
+        try:
+            with contextlib.redirect_stdout(io.StringIO()), warnings.catch_warnings():
+                warnings.simplefilter('ignore')
+                docs[k].save(b)
+        except Exception as e:      # noqa
+            rep.add('save-raises', 'step %d save %d: %s: %s' % (k, count[k], type(e).__name__, e)); continue
+        nsave += 1
+        one = compare_packages(srcs[k], L.read_pkg(b.getvalue()))
+        for sig, det in one.items:
+            rep.add(sig, 'step %d (%s/%s) save %d: %s' % (k, recipe['steps'][k]['base'], recipe['steps'][k].get('mut'), count[k], det))
+    return rep, nsave
+
+
+def gen_histories(chk):
+    """histories of 2-4 small packages; at least one of them carries members the library keeps as they are (extra
+    members at the top, files below object folders), several have object folders of the same names"""
+    rng = chk.rng
+    small = [f for f in sample_files() if os.path.getsize(os.path.join(common.REPO, f)) < 12000]
+    carriers = [('syn:objects', 'object-own-files'), ('syn:objects', 'object-listed-members'), ('syn:nested', 'object-listed-members'),
+                ('syn:nested', 'object-own-files'), ('syn:plain', 'extra-members'), ('syn:objects', 'extra-members'), ('syn:objpics', 'empty-media-types')]
+    others = [('syn:plain', None), ('syn:objects', None), ('syn:nested', None), ('syn:objpics', None), ('syn:gap', None), ('syn:objects', 'manifest-reorder')]
+    out = []
+    for i in range(6 if chk.tier == 'quick' else 40):
+        steps = []
+        n = rng.randint(2, 4)
+        for j in range(n):
+            if j == (i % 2) or rng.random() < 0.3:        # the carrier comes first in half of the histories
+                base, mut = rng.choice(carriers)
+            elif small and rng.random() < 0.25:
+                base, mut = 'file:' + rng.choice(small), rng.choice([None, 'extra-members'])
+            else:
+                base, mut = rng.choice(others)
+            steps.append({'base': base, 'mut': mut, 'seed': rng.getrandbits(48)})
+        sched = [k for k in range(n) for _ in range(rng.randint(1, 3))]
+        rng.shuffle(sched)
+        out.append({'base': 'history', 'mut': None, 'seed': 0, 'steps': steps, 'schedule': sched})
+    return out
+
+
 def gen_cases(chk):
     import loadmut as M
     rng = chk.rng
@@ -360,6 +461,7 @@ def gen_cases(chk):
             cases.append({'base': 'file:' + f, 'mut': 'object-renumber', 'seed': rng.getrandbits(48)})
             cases.append({'base': 'file:' + f, 'mut': 'replicate-objects', 'seed': rng.getrandbits(48)})
             cases.append({'base': 'file:' + f, 'mut': 'object-own-files', 'seed': rng.getrandbits(48)})
+            cases.append({'base': 'file:' + f, 'mut': 'object-listed-members', 'seed': rng.getrandbits(48)})
         if os.path.basename(f) in ('simplelist.odt', 'emb_spreadsheet.odp', 'cols.odp'):
             for mname in ('fonts-differ', 'fonts-styles-only', 'inline-document', 'embedded-fonts', 'empty-media-types'):
                 cases.append({'base': 'file:' + f, 'mut': mname, 'seed': rng.getrandbits(48)})
@@ -376,17 +478,23 @@ def gen_cases(chk):
             cases.append({'base': 'syn:' + rng.choice(['plain', 'plain', 'objects']), 'mut': m, 'seed': rng.getrandbits(48)})
     for _ in range(nsyn):
         cases.append({'base': 'syn:objects', 'mut': 'object-own-files', 'seed': rng.getrandbits(48)})
+    for shape in ('objects', 'nested', 'objpics', 'many', 'gap'):
+        for _ in range(nsyn if shape in ('objects', 'nested') else 1):
+            cases.append({'base': 'syn:' + shape, 'mut': 'object-listed-members', 'seed': rng.getrandbits(48)})
     return cases
 
 
 def run(chk, replay=None):
     chk.rule = ('every .od? package shipped in the repository, each also put through structure-preserving mutators '
                 '(prefix renaming/swapping, default namespace, declaration layout, manifest order, object numbering, extra '
-                'members, foreign attributes, fonts in content.xml only, names with blanks, CDATA, indentation) and synthetic '
-                'packages from the harness\' own serialiser; non-trivial = the package has a body with content')
+                'members, every kind of listed member below object folders, foreign attributes, fonts in content.xml only, names with blanks, CDATA, indentation) and synthetic '
+                'packages from the harness\' own serialiser; histories of 2-4 packages loaded in one process and saved in turn, each 1-3 times; non-trivial = the package has a body with content')
     if replay is not None:
-        raw = build_case(replay['input'])
-        rep, saved, doc, printed = run_package(raw)
+        if replay['input'].get('base') == 'history':
+            rep, nsave = run_history(replay['input'])
+        else:
+            raw = build_case(replay['input'])
+            rep, saved, doc, printed = run_package(raw)
         known = set(k['sig'] for k in chk.known)
         bad = [x for x in rep.items if (x[0] == replay['signature'] if replay.get('signature') else x[0] not in known)]
         for sig, det in bad[:10]:
@@ -418,6 +526,19 @@ def run(chk, replay=None):
     chk.prove(modules=['OdfModel.Props.C05', 'OdfModel.Props.C05Extras'], drivers=['drv_load'])
     drv = chk.driver('drv_load')
     L.correspond_pyspace(chk, drv)
+    # ---- histories first: several documents of one process, saved in turn and repeatedly (the replay of a failure found
+    # here is the whole history; a library that carries state from one save to the next shows it here first)
+    for hc in gen_histories(chk):
+        rep, nsave = run_history(hc)
+        chk.count('history_cases'); chk.count('history_saves', nsave)
+        chk.case(('history', json.dumps(hc, sort_keys=True)), nontrivial=nsave >= 3,
+                 sample={'case': {'steps': [(st['base'], st['mut']) for st in hc['steps']], 'schedule': hc['schedule']},
+                         'findings': sorted(set(x for x, _ in rep.items))})
+        seen = set()
+        for sig, det in rep.items:
+            if sig not in seen:
+                seen.add(sig)
+                chk.fail(sig, hc, det)
     for rc in cases:
         raw = build_case(rc)
         if raw is None:
